@@ -263,7 +263,8 @@ def edge_histories(exe):
     kind (array element -> string reference -> string, function -> environment, vector reference inside an array …) shows on the
     first of these.  Addresses are learnt from I's own state lines."""
     out = []
-    leaves = [("int", "alloc int 7"), ("str", "alloc str 6869"), ("double", "alloc double 4607182418800017408"), ("cptr", "alloc cptr")]
+    leaves = [("int", "alloc int 7"), ("str", "alloc str 6869"), ("double", "alloc double 4607182418800017408"), ("cptr", "alloc cptr"),
+              ("emptyarr", "alloc arr 0"), ("emptyvec", "alloc vec 0"), ("emptystr", "alloc str")]
     chains = [[], ["strref"], ["vecref"], ["arrref"], ["func"], ["vec"], ["arr"], ["vecref", "vec"], ["arr", "strref"], ["vec", "arrref"], ["func", "arr"], ["arr", "arr"], ["vec", "func"]]
     for holder in ("vec", "arr", "arr2"):
         for chain in chains:
